@@ -2,7 +2,7 @@
    normalised timeouts and clock readings, descriptors that are C ints, a clock that does not go
    backwards) hold, the model returns a trace, and the behaviours the property talks about occur. *)
 From Coq Require Import NArith ZArith List Bool Arith.
-From LCP Require Import Base.CheckedMem Events.EventsTrace Events.EventsSpec Events.EventsModel Events.EventsInv Events.EventsExamples Events.EventsRun5 Events.EventsRun5Frame Events.EventsC05.
+From LCP Require Import Base.CheckedMem Events.EventsTrace Events.EventsSpec Events.EventsModel Events.EventsInv Events.EventsExamples Events.EventsRun5 Events.EventsRun5Frame Events.EventsC05 Events.EventsProgress.
 Import ListNotations.
 
 Ltac norm5 :=
@@ -69,6 +69,11 @@ Example ex5_hyps :
   prog_norm5 ex5_prog /\ Forall xop_norm5 ex5_xops /\ Forall (fun t => tv_norm t = true) ex5_clocks /\
   clocks_from (0, 0)%N ex5_clocks.
 Proof. unfold prog_norm5, ex5_prog, ex5_xops, ex5_clocks, clocks_from. norm5. Qed.
+
+(* ... and the arguments are inside the API's contract (priorities < 32, descriptors < INT_MAX), so
+   by runs_to5_or_out_of_fuel the run returns a trace or runs out of fuel *)
+Example ex5_safe : prog_safe ex5_prog /\ Forall xop_safe ex5_xops.
+Proof. unfold prog_safe, ex5_prog, ex5_xops. safe_tac. Qed.
 
 Definition ex5_result : res trace := run_case ex5_prog ex5_xops ex5_polls ex5_clocks 100.
 
